@@ -21,6 +21,7 @@ fn fin_from(v: &Value, vsel: usize) -> FinCfg {
 }
 
 pub fn replay_flow_scripts(o: &Opts, t: &mut Tracer) -> (u64, u64) {
+    let debug = std::env::var("HV_DRIFT").is_ok();
     let path = match &o.scripts {
         Some(p) => p.clone(),
         None => return (0, 0),
@@ -29,7 +30,7 @@ pub fn replay_flow_scripts(o: &Opts, t: &mut Tracer) -> (u64, u64) {
     let mut n = 0u64;
     let mut drift = 0u64;
     for (li, line) in text.lines().enumerate() {
-        if o.quick() && li % 4 != (o.seed % 4) as usize {
+        if o.quick() && li % 8 != (o.seed % 8) as usize {
             continue;
         }
         let s: Value = serde_json::from_str(line).unwrap();
@@ -64,6 +65,9 @@ pub fn replay_flow_scripts(o: &Opts, t: &mut Tracer) -> (u64, u64) {
             if op["op"] != "arrive" && op["op"] != "init" && op["st"].as_str().map(|x| x != before).unwrap_or(false) {
                 // the real flow is not where the model is: the rest of the script does not apply
                 drift += 1;
+                if debug {
+                    eprintln!("DRIFT script {} : model in {} real in {} before op {}", li, op["st"], before, op);
+                }
                 break;
             }
             match op["op"].as_str().unwrap() {
@@ -88,6 +92,9 @@ pub fn replay_flow_scripts(o: &Opts, t: &mut Tracer) -> (u64, u64) {
                 let got = sim.fb.name();
                 if (predicted == "none") != (got == "Dead") || (predicted != "none" && predicted != got) {
                     drift += 1;
+                    if debug {
+                        eprintln!("DRIFT script {} : proceed predicted {} got {} ({})", li, predicted, got, s["coding"]);
+                    }
                 }
             }
         }
